@@ -48,10 +48,25 @@ def prepare_copy(repo, work, modules, here):
         tgt = os.path.join(dst, inject)
         if not os.path.exists(tgt):
             return dst, 'lost anchor: %s missing' % inject
-        modname = 'verif_kani_' + re.sub(r'\W', '_', os.path.splitext(os.path.basename(module))[0])
+        modname = module_name(module)
         with open(tgt, 'a') as f:
             f.write('\n#[cfg(kani)]\n#[path = "%s"]\nmod %s;\n' % (os.path.join(here, KANI_DIR, module), modname))
     return dst, None
+
+
+def module_name(module):
+    return 'verif_kani_' + re.sub(r'\W', '_', os.path.splitext(os.path.basename(module))[0])
+
+
+def qualified_name(h):
+    rel = h['inject_into']
+    parts = rel.split('/')
+    assert parts[0] == 'src'
+    parts = parts[1:]
+    parts[-1] = os.path.splitext(parts[-1])[0]
+    if parts[-1] in ('mod', 'lib'):
+        parts = parts[:-1]
+    return '::'.join(parts + [module_name(h['module']), h['harness']])
 
 
 _RES = re.compile(r'VERIFICATION:- (SUCCESSFUL|FAILED)')
@@ -61,13 +76,31 @@ _FAILED_CHECK = re.compile(r'^Failed Checks: (.*)$', re.M)
 
 
 def run_harness(copy, h, jobs_env, extra_args=()):
+    # --no-assertion-reach-checks: with concrete playback on, Kani's reachability checks make CBMC emit one multi-million-line
+    #   trace per reachable assertion (measured: 12 min / 27 GB -> 24 s / 1.2 GB); vacuity is guarded by the final kani::cover!.
+    # --exact: the harness filter is otherwise a substring match.
     cmd = ['cargo', 'kani', '-Z', 'stubbing', '-Z', 'function-contracts', '-Z', 'concrete-playback', '--concrete-playback=print',
-           '--harness', h['harness']]
+           '-Z', 'unstable-options', '--no-assertion-reach-checks', '--exact', '--harness', qualified_name(h)]
     if h.get('features'):
         cmd += ['--features', ','.join(h['features'])]
     cmd += list(extra_args)
-    if h.get('kani_args'):
-        cmd += list(h['kani_args'])
+    extra_k = [a for a in (h.get('kani_args') or [])]
+    # drop flags that are now defaults
+    cleaned = []
+    i = 0
+    while i < len(extra_k):
+        if extra_k[i] == '-Z' and i + 1 < len(extra_k) and extra_k[i + 1] == 'unstable-options':
+            i += 2
+            continue
+        if extra_k[i] == '--no-assertion-reach-checks':
+            i += 1
+            continue
+        cleaned.append(extra_k[i])
+        i += 1
+    if '--cbmc-args' not in cleaned:
+        # CBMC constant-propagates only through arrays of <= 64 cells by default; Vec<Vec<_>> buffers are larger
+        cleaned += ['--cbmc-args', '--max-field-sensitivity-array-size', '512']
+    cmd += cleaned
     env = dict(os.environ)
     env['CARGO_NET_OFFLINE'] = 'true'
     env.update(jobs_env)
@@ -123,6 +156,13 @@ def classify(h, cmd, rc, out, wall):
     real = [d for d in descs if 'unwinding assertion' not in d]
     if unwind and not real:
         r.update(status='inconclusive', reason='unwinding assertion failed (bound too small): %s' % unwind[0])
+        return r
+    if not real and 'encountered no panics, but at least one was expected' in out:
+        r['status'] = 'violation'
+        r['raw_out'] = out
+        r['failed_desc'] = 'the call returned normally where the property demands rejection (should_panic harness saw no panic)'
+        r['failed_check'] = 'expected-panic-did-not-occur'
+        r['detail'] = out[-1500:]
         return r
     if not real:
         # e.g. unsupported construct reached, or cover unsatisfied
